@@ -11,6 +11,9 @@
 //	eclose     the data sink's Close fails (at the very end)
 //	eencclose  Encode fails at the k-th sample AND the sink's Close fails afterwards (two errors to report)
 //	eok        nothing fails
+//	ecloser    the encoder is an io.Closer (it is closed instead of the final flush) and its Close fails; eokc: does not fail
+//	eencd      every Encode takes 300 us and the k-th (the last sample of the run) fails: usually met in the drain loop,
+//	           after the aggregator was told to stop
 //
 // gate 1 = flush-interval 20 us (always for eflusht); ctxret 1 (with a flush interval) = the encoder tells the
 // aggregator of its own flushes (the onFlush callback, as the jsonlines encoder does when its buffer runs full), so
@@ -118,11 +121,15 @@ type planEncoder struct {
 	flushFail   bool
 	flushFailAt int           // only this Flush call fails (0: none)
 	failed      chan struct{} // closed when that Flush call has failed
+	slowEncode  time.Duration
 	onFlush     func()        // set when the encoder reports its own flushes: it flushes at every second sample
 }
 
 func (e *planEncoder) Encode(core.Sample) error {
 	e.n++
+	if e.slowEncode > 0 {
+		time.Sleep(e.slowEncode)
+	}
 	bad := e.encFailAt > 0 && e.n == e.encFailAt
 	e.tr.add(okFail(!bad, 'e', 'E'))
 	if bad {
@@ -149,6 +156,21 @@ func (e *planEncoder) Flush() error {
 	return nil
 }
 
+// closingEncoder is an encoder that has to be closed (the aggregator closes it instead of the final flush).
+type closingEncoder struct {
+	*planEncoder
+	closeFail bool
+}
+
+func (e closingEncoder) Close() error {
+	e.tr.add(okFail(!e.closeFail, 'f', 'F')) // takes the place of the final flush
+	if e.closeFail {
+		e.pm.fault("aggr")
+		return errFlush
+	}
+	return nil
+}
+
 // classifyAggr names the failures the real aggregator's error carries.
 func classifyAggr(err error) string {
 	if err == nil {
@@ -164,7 +186,7 @@ func classifyAggr(err error) string {
 	add(strings.Contains(msg, errSinkOpen.Error()), "open")
 	add(strings.Contains(msg, errEncode.Error()), "enc")
 	nFlush := strings.Count(msg, errFlush.Error())
-	nFinal := strings.Count(msg, "final flush failed: "+errFlush.Error())
+	nFinal := strings.Count(msg, "final flush failed: "+errFlush.Error()) + strings.Count(msg, "encoder close failed: "+errFlush.Error())
 	add(nFlush > nFinal, "flush")
 	add(nFinal > 0, "final")
 	add(strings.Contains(msg, errSinkClose.Error()), "close")
@@ -216,7 +238,10 @@ func realAggregator(pm *poolMocks, pl poolPlan) core.Aggregator {
 	case "eencclose":
 		enc.encFailAt = pl.k
 		sink.closeFail = true
-	case "eok":
+	case "eencd":
+		enc.encFailAt = pl.k
+		enc.slowEncode = 300 * time.Microsecond
+	case "eok", "ecloser", "eokc":
 	default:
 		return nil
 	}
@@ -228,6 +253,9 @@ func realAggregator(pm *poolMocks, pl poolPlan) core.Aggregator {
 	inner := aggregator.NewEncoderAggregator(func(_ io.Writer, onFlush func()) aggregator.SampleEncoder {
 		if pl.gate && pl.ctxret {
 			enc.onFlush = onFlush
+		}
+		if fault == "ecloser" || fault == "eokc" {
+			return closingEncoder{planEncoder: enc, closeFail: fault == "ecloser"}
 		}
 		return enc
 	}, conf)
